@@ -143,11 +143,11 @@ class Server:
                     self.retime(parts[1], it, ex)
                     r = b"TOUCHED\r\n"
                 out += b"" if len(parts) == 4 else r
-            elif verb == b"flush_all" and len(parts) in (2, 3) and udec(parts[1], 2 ** 63 - 1) is not None \
+            elif verb == b"flush_all" and len(parts) in (2, 3) and udec(parts[1], float('inf')) is not None \
                     and (len(parts) == 2 or parts[2] == b"noreply"):
                 # strict: the delay is required (the client always sends it)
                 nr = len(parts) == 3
-                delay = udec(parts[1], 2 ** 63 - 1)
+                delay = udec(parts[1], float('inf'))      # protocol.txt gives the delay no upper bound
                 self.log.append(("flush_all", delay, nr))
                 if delay == 0:
                     self.d.clear()
